@@ -329,6 +329,30 @@ class Src(str):
         return best
 
 
+def resolve_local(fn_node, expr, depth=3):
+    """`expr` with a local name that is assigned exactly once in the function replaced by what it was assigned (a few levels deep): reads through temporaries that the
+    canonical form keeps because their value may have effects (`_view = self._get_iminuit().fixed`)"""
+    if depth <= 0 or expr is None:
+        return expr
+    defs = {}
+    for n in ast.walk(fn_node):
+        if isinstance(n, ast.Assign) and len(n.targets) == 1 and isinstance(n.targets[0], ast.Name):
+            defs.setdefault(n.targets[0].id, []).append(n.value)
+        elif isinstance(n, (ast.AugAssign, ast.For, ast.comprehension)):
+            for x in ast.walk(n.target):
+                if isinstance(x, ast.Name):
+                    defs.setdefault(x.id, []).extend([None, None])
+    import copy
+
+    class T(ast.NodeTransformer):
+        def visit_Name(self, n):
+            if isinstance(n.ctx, ast.Load) and len(defs.get(n.id, [])) == 1 and defs[n.id][0] is not None:
+                return resolve_local(fn_node, copy.deepcopy(defs[n.id][0]), depth - 1)
+            return n
+
+    return T().visit(copy.deepcopy(expr))
+
+
 def like_any(src, *alternatives):
     """True if all patterns of one of the alternatives (lists of patterns) are found, each alternative with its own binding of the placeholders"""
     for alt in alternatives:
